@@ -1,50 +1,55 @@
-(** C03 - printed floats parse back to the same float.  PROVED END TO END: [C03_roundtrip_exact] (any rendering whose value is exactly the float x, e.g. the full expansion), [C03_roundtrip_17_digits] / [C03_roundtrip_9_digits] (any decimal within half a unit of the 17th / 9th significant digit of x - so in particular x correctly rounded to 17 / 9 digits); the shortest identifying string exists with <= 17 / 9 digits ([exists_short_decimal_*]) and by definition rounds to x, so it parses back by C01/C02.
-    Domain and premise as in props/C01.v: [in_domain] = valid_inputb and at most 2^28 digits, every i32
-    exponent; [deep_ok] is vacuous for the compact configurations and the single residual premise for
-    the Eisel-Lemire ones (see props/C01.v).  Closed by [exact]; the model is tied to /repo by the
-    correspondence harness on every run. *)
+(** C03 - printed floats parse back to the same float.  PROVED END TO END: [C03_exact_final] (any rendering whose value is exactly the float x, e.g. the full expansion), [C03_17_digits_final] / [C03_9_digits_final] (any decimal within half a unit of the 17th / 9th significant digit of x - in particular x correctly rounded to 17 / 9 digits); the shortest identifying string exists with <= 17 / 9 digits ([exists_short_decimal_*]) and by definition rounds to x, so it parses back by C01/C02.
+    Domain as in props/C01.v: [in_domain] = valid_inputb (ASCII digits, integer part without leading zero, any
+    i32 exponent) and at most 2^28 digits; all eight configurations, both formats, both build modes; NO further
+    premise (the [deep_ok] versions are kept beneath as the intermediate statements).  Closed by [exact]; the
+    model is tied to /repo by the correspondence harness on every run. *)
 
 From Coq Require Import ZArith QArith Qabs List Bool Reals Qreals.
 From Coq Require Import Floats.SpecFloat.
 From Flocq Require Import Core.Core.
-From ML Require Import base.RustSem model.Fmt model.Num model.Number model.Parse model.Lemire model.Bellerophon model.Top
+From ML Require Import base.RustSem model.Fmt model.Num model.Number model.Parse model.Lemire model.Bellerophon model.Vec model.Bigint model.Slow model.Top
   spec.Decimal spec.Round spec.RoundFacts spec.DigitsSuffice gen.Consts gen.Tables gen.BTables gen.PowDump
   proofs.ParseFacts proofs.FastPathFacts proofs.EndToEnd proofs.EndToEnd2 proofs.EndToEnd3 proofs.EndToEnd4 proofs.EndToEnd5 proofs.EndToEnd6 proofs.EndToEnd7
-  proofs.LemireFacts6 proofs.Glue.
+  proofs.LemireFacts6 proofs.Glue proofs.TruncFacts proofs.TruncFacts2 proofs.SlowFacts1 proofs.DeepFallback proofs.DeepFallback2 proofs.Final.
 Import ListNotations.
 
 Open Scope Z_scope.
+
+Theorem C03_C03_exact_final :
+  forall (c : config) (f : format) (b : build) (i fr : list Z) (e x : Z),
+         In c ALL_CONFIGS ->
+         f = F32 \/ f = F64 ->
+         in_domain i fr e -> 0 <= x < inf_bits f -> dec_value i fr e == value_Q f x -> PF c f b i fr e = Ok x.
+Proof. exact C03_exact_final. Qed.
+
+Theorem C03_C03_17_digits_final :
+  forall (c : config) (b : build) (i fr : list Z) (e x e10 : Z),
+         In c ALL_CONFIGS ->
+         in_domain i fr e ->
+         0 < x < inf_bits F64 ->
+         (pow10Q e10 <= value_Q F64 x)%Q ->
+         (Qabs (dec_value i fr e - value_Q F64 x) <= pow10Q (e10 - 17 + 1) * (1 # 2))%Q ->
+         PF c F64 b i fr e = Ok x.
+Proof. exact C03_17_digits_final. Qed.
+
+Theorem C03_C03_9_digits_final :
+  forall (c : config) (b : build) (i fr : list Z) (e x e10 : Z),
+         In c ALL_CONFIGS ->
+         in_domain i fr e ->
+         0 < x < inf_bits F32 ->
+         (pow10Q e10 <= value_Q F32 x)%Q ->
+         (Qabs (dec_value i fr e - value_Q F32 x) <= pow10Q (e10 - 9 + 1) * (1 # 2))%Q ->
+         PF c F32 b i fr e = Ok x.
+Proof. exact C03_9_digits_final. Qed.
 
 Theorem C03_C03_roundtrip_exact :
   forall (c : config) (f : format) (b : build) (i fr : list Z) (e x : Z),
          In c ALL_CONFIGS ->
          f = F32 \/ f = F64 ->
          in_domain i fr e ->
-         deep_ok c f b i fr e ->
+         EndToEnd7.deep_ok c f b i fr e ->
          0 <= x < inf_bits f -> dec_value i fr e == value_Q f x -> PF c f b i fr e = Ok x.
 Proof. exact C03_roundtrip_exact. Qed.
-
-Theorem C03_C03_roundtrip_17_digits :
-  forall (c : config) (b : build) (i fr : list Z) (e x e10 : Z),
-         In c ALL_CONFIGS ->
-         in_domain i fr e ->
-         deep_ok c F64 b i fr e ->
-         0 < x < inf_bits F64 ->
-         (pow10Q e10 <= value_Q F64 x)%Q ->
-         (Qabs (dec_value i fr e - value_Q F64 x) <= pow10Q (e10 - 17 + 1) * (1 # 2))%Q ->
-         PF c F64 b i fr e = Ok x.
-Proof. exact C03_roundtrip_17_digits. Qed.
-
-Theorem C03_C03_roundtrip_9_digits :
-  forall (c : config) (b : build) (i fr : list Z) (e x e10 : Z),
-         In c ALL_CONFIGS ->
-         in_domain i fr e ->
-         deep_ok c F32 b i fr e ->
-         0 < x < inf_bits F32 ->
-         (pow10Q e10 <= value_Q F32 x)%Q ->
-         (Qabs (dec_value i fr e - value_Q F32 x) <= pow10Q (e10 - 9 + 1) * (1 # 2))%Q ->
-         PF c F32 b i fr e = Ok x.
-Proof. exact C03_roundtrip_9_digits. Qed.
 
 Theorem C03_RN_fixpoint :
   forall f : format, sfmt_ok f = true -> forall x : Z, 0 <= x < inf_bits f -> RN f (value_Q f x) = x.
@@ -104,9 +109,10 @@ Theorem C03_RN_Qeq :
 Proof. exact RN_Qeq. Qed.
 
 
+Print Assumptions C03_C03_exact_final.
+Print Assumptions C03_C03_17_digits_final.
+Print Assumptions C03_C03_9_digits_final.
 Print Assumptions C03_C03_roundtrip_exact.
-Print Assumptions C03_C03_roundtrip_17_digits.
-Print Assumptions C03_C03_roundtrip_9_digits.
 Print Assumptions C03_RN_fixpoint.
 Print Assumptions C03_close_rounds_back.
 Print Assumptions C03_digits_suffice.
